@@ -8,13 +8,17 @@ META = dict(
           'on the value. Oracle: reference little-endian encoder/decoder over a hand-written lp32 layout; after a store the whole 64 KiB region equals the '
           'background except the object bytes; loads decode exactly those bytes; SIGSEGV on the guard page = violation. non-trivial = object touching the last '
           'byte / first bytes of the region or a value that does not fit.'),
-    assumptions=['little-endian guest; misaligned accesses are exercised because x86 permits them', 'lp32 integer ABI with 16-bit pointers'],
+    assumptions=['little-endian guest; misaligned accesses are exercised because x86 permits them', 'lp32 and wide integer ABIs with 16-bit pointers (pointer/array/struct cases under lp32 only)'],
 )
 
 
 def run(ctx):
     specs = [('c07_' + k.lower(), 'c07.cpp', dict(opt='-O1', defs=['C07_' + k])) for k in 'ABC']
+    # the wide ABI makes the guest object WIDER than the application type: a load with the application width under-reads
+    specs += [('c07w_' + k.lower(), 'c07.cpp', dict(opt='-O1', defs=['C07_' + k, 'C07_WIDE'])) for k in 'ABC']
     bins = ctx.build_many(specs)
     a = ['--thorough'] if ctx.thorough else []
     for k in 'ABC':
         ctx.run(bins['c07_' + k.lower()], a)
+    for k in 'ABC':
+        ctx.run(bins['c07w_' + k.lower()], a)
